@@ -94,6 +94,11 @@ theorem idleOutside_isrGap (script : Script) (p : Point) {s : S} (h : IdleOutsid
 theorem hung_finishPass (s : S) (v : BitVec 32) : (finishPass s v).hung = s.hung := rfl
 theorem hung_returned (s : S) (r : Ret) : (returned s r).hung = s.hung := by
   unfold returned; split <;> rfl
+theorem hung_bodyStep (s : S) : (bodyStep s).hung = s.hung := by
+  unfold bodyStep; split
+  · rw [hung_returned]
+  · rfl
+  · rfl
 theorem hung_bodyOf (s : S) (c : Fid) : (bodyOf s c).hung = s.hung := by
   unfold bodyOf
   split
@@ -101,6 +106,7 @@ theorem hung_bodyOf (s : S) (c : Fid) : (bodyOf s c).hung = s.hung := by
   · split <;> rw [hung_returned]
   · split <;> rw [hung_returned] <;> rfl
   · rw [hung_returned]
+  · rw [hung_bodyStep]
 theorem hung_dispatch (s : S) : (dispatch s).hung = s.hung := by
   unfold dispatch; split
   · unfold body; rw [hung_bodyOf]; rfl
@@ -121,6 +127,8 @@ theorem hung_afterDrain (s : S) (c : Cont) : (afterDrain s c).hung = s.hung := b
       · rw [hung_afterUpdate]
       · exact hung_afterUpdate s
   | pass2 c => simp only [afterDrain]; rw [hung_afterUpdate]
+  | brun g => simp only [afterDrain]; rw [hung_bodyStep]; rfl
+  | bkill g => simp only [afterDrain]; rw [hung_bodyStep]; rfl
 
 theorem mainPlain_hung (s : S) : (mainPlain s).hung = s.hung := by
   unfold mainPlain
@@ -186,6 +194,7 @@ inductive ReachIsr : S → Prop
   | nops {s : S} (k : Nat) : ReachIsr s → ReachIsr { s with nops := k }
   | newItem {s : S} : ReachIsr s → ReachIsr { s with trace := [], fired := 0 }
   | noYields {s : S} : ReachIsr s → ReachIsr { s with budget := fun _ => 0 }
+  | setBody {s : S} (b : List BCall) (r : Ret) : ReachIsr s → ReachIsr { s with bscript := b, bret := r }
 
 theorem reachIsr_reach {s : S} (h : ReachIsr s) : Reach s := by
   induction h with
@@ -199,6 +208,7 @@ theorem reachIsr_reach {s : S} (h : ReachIsr s) : Reach s := by
   | nops k _ ih => exact Reach.nops k ih
   | newItem _ ih => exact Reach.newItem ih
   | noYields _ ih => exact Reach.noYields ih
+  | setBody b r _ ih => exact Reach.setBody b r ih
 
 /-- **at every step of an interrupted main context, no sender is inside a call** (unless the run was cut) -/
 theorem reachIsr_quiet {s : S} (h : ReachIsr s) : IdleOutside [] s := by
@@ -213,6 +223,7 @@ theorem reachIsr_quiet {s : S} (h : ReachIsr s) : IdleOutside [] s := by
   | nops k _ ih => exact idleOutside_same ih rfl rfl
   | newItem _ ih => exact idleOutside_same ih rfl rfl
   | noYields _ ih => exact idleOutside_same ih rfl rfl
+  | setBody b r _ ih => exact idleOutside_same ih rfl rfl
 
 theorem quiet_of_reachIsr {s : S} (h : ReachIsr s) (hh : s.hung = false) : Quiet s := by
   rcases reachIsr_quiet h with e | e
@@ -264,10 +275,10 @@ def InterruptOnly : Item → Prop
 theorem reachIsr_runItem {s : S} (h : ReachIsr s) (it : Item) (hi : InterruptOnly it) : ReachIsr (runItem s it) := by
   unfold runItem
   cases it with
-  | main m => exact reachIsr_callMain (fun p _ h => reachIsr_isrGap m.script p h) m.call (ReachIsr.newItem h)
+  | main m => exact reachIsr_callMain (fun p _ h => reachIsr_isrGap m.script p h) m.call (ReachIsr.setBody _ _ (ReachIsr.newItem h))
   | isr e => exact ReachIsr.isr e (ReachIsr.newItem h)
   | thread c script => exact False.elim hi
-  | quiesce => exact reachIsr_quiesceLoop 64 _ (ReachIsr.noYields (ReachIsr.newItem h))
+  | quiesce => exact reachIsr_quiesceLoop 64 _ (ReachIsr.setBody _ _ (ReachIsr.noYields (ReachIsr.newItem h)))
 
 theorem reachIsr_runHistory (d : Nat) (kinds : List Kind) (budgets : List Nat) (h1 : 1 ≤ d) (h32 : d ≤ 32) :
     ∀ (h : List Item), (∀ it ∈ h, InterruptOnly it) → ReachIsr (runHistory (initWith d kinds budgets) h) := by
